@@ -1,0 +1,36 @@
+//go:build verif
+
+package transp
+
+import (
+	"unsafe"
+
+	"github.com/paulsonkoly/chess-3/board"
+)
+
+// VerifBucketIx is the bucket index hash maps to at the current table size.
+func (t *Table) VerifBucketIx(hash board.Hash) int { return t.bucketIx(hash) }
+
+// VerifBuckets is the number of buckets in the table.
+func (t *Table) VerifBuckets() int { return len(t.data) }
+
+// VerifMatch64 exposes the lane matcher.
+func VerifMatch64(w uint64, key uint16) (int, bool) { return match64(w, partialKey(key)) }
+
+// VerifDigest is a digest of the complete table contents.
+func (t *Table) VerifDigest() uint64 {
+	h := uint64(0xcbf29ce484222325)
+	mix := func(v uint64) {
+		h ^= v
+		h *= 0x100000001b3
+		h ^= h >> 29
+	}
+	mix(uint64(len(t.data)))
+	for i := range t.data {
+		w := (*[bucketSize / 8]uint64)(unsafe.Pointer(&t.data[i]))
+		for _, v := range w {
+			mix(v)
+		}
+	}
+	return h
+}
